@@ -77,3 +77,14 @@ Theorem C03_fft_domain_positions_distinct :
     fpow omega n = 1 -> (forall k, (0 < k < n)%nat -> fpow omega k <> 1) -> NoDup (dom omega n).
 Proof. exact @primitive_root_domain_distinct. Qed.
 Print Assumptions C03_fft_domain_positions_distinct.
+
+Theorem C03_ligero_wf_few_agreements :
+  forall (FO : FieldOps) (FL : FieldLaws FO) n_rows n_cols n_ext omega rows z value pf r idx res wfv,
+    NoDup (dom omega n_ext) -> Forall (fun r => (length r <= n_cols)%nat) rows ->
+    Forall (fun i => (i < n_ext)%nat) idx ->
+    l_check true n_rows n_cols n_ext omega (map (encode omega n_ext) rows) z value pf r idx = Ok res ->
+    lf_wf pf = Some wfv ->
+    (exists x, eval wfv x <> eval (rowcomb rows n_cols r) x) ->
+    forall J, NoDup J -> incl J idx -> (length J < n_cols)%nat.
+Proof. exact @ligero_wf_few_agreements. Qed.
+Print Assumptions C03_ligero_wf_few_agreements.
